@@ -27,7 +27,8 @@ REQUIRED = {"eval.post": 1000, "runs_with_injected_fault": 200,
             "models_inputs_checked": 1000, "malformed_calls": 20}
 MIN_NONTRIVIAL = {"quick": 40, "thorough": 200}
 PLAN = [("faults", 900, 14000), ("degenerate", 500, 7000),
-        ("bounds", 300, 4000), ("misc", 300, 4000), ("malformed", 60, 120), ("cross", 300, 6000)]
+        ("bounds", 300, 4000), ("misc", 300, 4000), ("malformed", 60, 120), ("cross", 300, 6000),
+        ("nanmix", 300, 4000)]
 
 
 def cases(tier, seed):
@@ -112,6 +113,37 @@ def make_spec(case):
                            maxfev=(20, 120))
         if not spec.get("faults"):
             spec["faults"] = gen.fault_plan(rng, spec) or []
+        return spec
+    if fam == "nanmix":
+        # short runs in which NO evaluation may be fully defined: the
+        # objective is NaN on one subset of the first evaluations and a
+        # constraint component on another (every sequence of defined /
+        # undefined pairs over the first few evaluations)
+        n = int(rng.integers(1, 3))
+        x0 = rng.uniform(-1, 1, n)
+        nev = int(rng.integers(1, 7))
+        obj_nan = sorted(int(i) for i in range(nev) if rng.random() < 0.5)
+        con_nan = sorted(int(i) for i in range(nev)
+                         if (i not in obj_nan and rng.random() < 0.8)
+                         or rng.random() < 0.2)
+        spec = {"n": n, "x0": x0.tolist(), "con_kind": "nl",
+                "obj": gen.objective(rng, n, ("quad", "abs", "lin")),
+                "nl": gen.nonlinear_constraints(rng, n, x0, count=1,
+                                                forms=("nlc", "dict_ineq")),
+                "options": {"maxfev": nev if rng.random() < 0.7 else
+                            nev + int(rng.integers(1, 20))},
+                "degenerate": "nanmix"}
+        spec["faults"] = []
+        if obj_nan:
+            spec["faults"].append({"target": "obj", "val": "nan",
+                                   "when": {"idx": obj_nan}})
+        if con_nan:
+            spec["faults"].append({"target": "con", "j": 0, "comp": None,
+                                   "val": str(rng.choice(["nan", "nan",
+                                                          "inf"])),
+                                   "when": {"idx": con_nan}})
+        if rng.random() < 0.4:
+            spec["callback"] = {"conv": str(rng.choice(["kw", "pos"]))}
         return spec
     if fam == "degenerate":
         n = int(rng.integers(1, 5))
